@@ -213,7 +213,7 @@ func checkC20(t *testing.T, c C20Case) *stats.Verdict {
 				events = append(events, it.ev)
 			}
 		}
-		pulled = cr.pulled
+		pulled = cr.Pulled
 	case "conn":
 		var buf []byte
 		if c.BufCap > 0 {
@@ -232,7 +232,7 @@ func checkC20(t *testing.T, c C20Case) *stats.Verdict {
 		if errors.Is(endErr, io.EOF) {
 			endErr = nil
 		}
-		pulled = res.readers[0].pulled
+		pulled = res.readers[0].Pulled
 	}
 
 	desc := func() string {
